@@ -3,6 +3,8 @@
 import json
 CLAIMED = {
  "C01": ("exploration", "Seeded search over muxing histories on the real Mp4Writer/Mp4Reader over a simulated disk with transparent I/O faults, against a reference model; a clean batch is evidence, not proof.", "§5 C01", "reference model and payload stamping are trusted; bounded histories", "deterministic simulation: seeded API-history search vs reference model over a fault-injecting simulated disk"),
+ "C14": ("exploration", "Seeded search over documented-domain Mp4Config/TrackConfig values plus sample histories, muxed and read back through every accessor of the real reader on the simulated disk.", "§5 C14", "durations compared with a one-tick tolerance; AAC object types >= 32 are a known finding", "deterministic simulation: seeded configuration+history search, accessor read-back vs configuration"),
+ "C17": ("exploration", "Seeded hostile histories over the full value range of every public muxer argument with injected hard stream faults, each call under catch_unwind in overflow-checked and wrapping builds; worker death is caught by the supervisor.", "§5 C17", "panics are what catch_unwind or the supervisor can see; other muxer properties applied only inside their domain", "deterministic simulation: hostile API-history search with injected stream faults, panic/abort oracle in two build profiles"),
  "C02": ("exploration", "Same history space, judged only by an independent ISO-BMFF parser evaluating the structural and table relations on the output bytes.", "§5 C02", "independent parser `indep` trusted", "deterministic simulation: seeded API-history search, independent-parser oracle on the simulated disk image"),
 }
 NA = {
@@ -14,7 +16,7 @@ NA = {
  "C16": "finite total functions decided by exhaustive enumeration of their domains: proof by exhaustion, the opposite of seeded search",
  "C18": "pure function of the udta/meta/ilst bytes",
 }
-PENDING = {k: "check under construction in this round (DESIGN.md §5); not claimed until its machinery runs clean" for k in ["C06","C07","C08","C10","C11","C13","C14","C15","C17"]}
+PENDING = {k: "check under construction in this round (DESIGN.md §5); not claimed until its machinery runs clean" for k in ["C06","C07","C08","C10","C11","C13","C15"]}
 import sys
 root = "/verif"
 checks = []
